@@ -11,6 +11,7 @@ CONSTANTS
   Tmo = {0}
   Horizon = 2
   AllowFaults = TRUE
+  OpenGarbage = TRUE
   AdapterErrors = FALSE
   AllowCancel = FALSE
   AllowStall = FALSE
